@@ -12,12 +12,17 @@ PROPS = {
     'C02': dict(level='other', proof=None, bounded=['vlib.rtc.c02'], explanation='placeholder', trusted_base=[], assumptions=[]),
     'C03': dict(level='proof', proof=None, bounded=['vlib.rtc.c03'], explanation='placeholder', trusted_base=[], assumptions=[]),
     'C04': dict(level='proof', proof=None, bounded=['vlib.rtc.c04'], explanation='placeholder', trusted_base=[], assumptions=[]),
+    'C05': dict(level='other', proof=None, bounded=['vlib.rtc.c05'], explanation='placeholder', trusted_base=[], assumptions=[]),
     'C06': dict(level='other', proof=None, bounded=['vlib.rtc.c06'], explanation='placeholder', trusted_base=[], assumptions=[]),
     'C07': dict(level='exploration', proof=None, bounded=['vlib.rtc.c07'], explanation='placeholder', trusted_base=[], assumptions=[]),
     'C08': dict(level='other', proof=None, bounded=['vlib.rtc.c08'], explanation='placeholder', trusted_base=[], assumptions=[]),
     'C09': dict(level='other', proof=None, bounded=['vlib.rtc.c09'], explanation='placeholder', trusted_base=[], assumptions=[]),
     'C10': dict(level='exploration', proof=None, bounded=['vlib.rtc.c10'], explanation='placeholder', trusted_base=[], assumptions=[]),
     'C11': dict(level='proof', proof=None, bounded=['vlib.rtc.c11'], explanation='placeholder', trusted_base=[], assumptions=[]),
+    'C12': dict(level='exploration', proof=None, bounded=['vlib.rtc.c12'], explanation='placeholder', trusted_base=[], assumptions=[]),
+    'C13': dict(level='exploration', proof=None, bounded=['vlib.rtc.c13'], explanation='placeholder', trusted_base=[], assumptions=[]),
+    'C14': dict(level='other', proof=None, bounded=['vlib.rtc.c14'], explanation='placeholder', trusted_base=[], assumptions=[]),
+    'C15': dict(level='exploration', proof=None, bounded=['vlib.rtc.c15'], explanation='placeholder', trusted_base=[], assumptions=[]),
 }
 
 NOTES = ('Technique family: contract-based deductive verification of the real code. Proof obligations are generated '
